@@ -102,6 +102,15 @@ class History(object):
                 weid = self.ref.new_id()
                 for p in ps:
                     self.ref.prefixes.set(p.lru, weid)
+            elif kind == "rule":
+                li, k, rn = item[1]
+                a = self.pool[li].prefix(k)
+                ok, rep = E.call("add_webentity_creation_rule", self.t.add_webentity_creation_rule, a.lru, RULES[rn], _allowed=())
+                self.ref.name(a)
+                self.ref.rules.set(a.lru, rn)
+                self.install_model(a, rep)
+            elif kind == "clear":
+                self.op_clear("prelude")
             else:
                 raise ValueError(kind)
 
@@ -167,7 +176,8 @@ class History(object):
         arg = {}
         for s, ts in data:
             arg[s.lru] = [x.lru for x in ts]
-        yf = self.opts.get("yield_frequency", 50)
+        yfs = self.opts.get("yield_frequencies", [50])
+        yf = yfs[E.choose(n + ".yf", len(yfs))]
         ok, rep = E.call("index_batch_crawl", self.t.index_batch_crawl, arg, yf)
         E.check(ok, "index_batch_crawl:refused")
         new = 0
